@@ -49,6 +49,9 @@ type fakeUp struct {
 	node int
 	id   int
 	ep   string
+	// gone: the listener stopped accepting (client.Listener.Close sends a yamux GoAway but
+	// keeps the session): Dial answers upstream.ErrGone while the upstream is still registered.
+	gone int32
 }
 
 func (u *fakeUp) EndpointID() string { return u.ep }
@@ -59,6 +62,12 @@ func (u *fakeUp) stamp() string {
 }
 
 func (u *fakeUp) Dial() (net.Conn, error) {
+	if atomic.LoadInt32(&u.gone) != 0 {
+		u.eng.mu.Lock()
+		u.eng.goneDialed = append(u.eng.goneDialed, upKey{node: u.node, uid: u.id, ep: u.ep})
+		u.eng.mu.Unlock()
+		return nil, upstream.ErrGone
+	}
 	a, b := net.Pipe()
 	kind := u.eng.curKind.Load().(string)
 	u.eng.mu.Lock()
@@ -137,6 +146,7 @@ type routeEngine struct {
 	curKind       atomic.Value
 	mu            sync.Mutex
 	deliveries    []string
+	goneDialed    []upKey
 }
 
 // New returns the engine.
@@ -472,6 +482,7 @@ func (e *routeEngine) req(r reqSpec, o *Out) string {
 	atomic.StoreInt64(&e.totalAccepted, 0)
 	e.mu.Lock()
 	e.deliveries = nil
+	e.goneDialed = nil
 	e.mu.Unlock()
 	e.curKind.Store(r.kind)
 	before := make([]map[string]float64, len(e.nodes))
@@ -504,13 +515,43 @@ func (e *routeEngine) req(r reqSpec, o *Out) string {
 	sort.Strings(via)
 	e.mu.Lock()
 	deliveries := append([]string(nil), e.deliveries...)
+	goneDialed := append([]upKey(nil), e.goneDialed...)
 	e.mu.Unlock()
+	// what was registered when the request was made (the oracle speaks about that moment)
+	regBefore := append([]upKey(nil), e.order...)
+	// an upstream that answered ErrGone is removed by the proxy (RemoveConn): reference registry
+	for _, g := range goneDialed {
+		for i, x := range e.order {
+			if x == g {
+				e.order = append(append([]upKey(nil), e.order[:i]...), e.order[i+1:]...)
+				break
+			}
+		}
+	}
+	goneAt := func(nodeIdx int, ep string) bool {
+		for _, g := range goneDialed {
+			if g.node == nodeIdx && g.ep == ep {
+				return true
+			}
+		}
+		return false
+	}
+	registeredBefore := func(nodeIdx int, ep string) []int {
+		var ids []int
+		for _, k := range regBefore {
+			if k.node == nodeIdx && k.ep == ep {
+				ids = append(ids, k.uid)
+			}
+		}
+		return ids
+	}
 
 	// ---- oracle, from the property statements, on what the real cluster did
 	want := addressed(r)
 	opts := connOptions(r.connRaw)
 	detail := fmt.Sprintf("entry=n%d kind=%s host=%s ephdr=%v:%s fwd=%v:%s conn=%q pathep=%s -> %s/%s stamp=%s counts=%v via=%v",
-		r.entry, r.kind, Hx(r.host), r.hasEp, Hx(r.epHdr), r.hasFwd, Hx(r.fwdHdr), r.connRaw, Hx(r.pathEp), res.code, res.reason, res.stamp, counts, via)
+		r.entry, r.kind, Hx(r.host), r.hasEp, Hx(r.epHdr), r.hasFwd, Hx(r.fwdHdr), r.connRaw, Hx(r.pathEp), res.code, res.reason, res.stamp, counts, via) +
+		fmt.Sprintf(" gone-dialed=%v", goneDialed)
 	o.Count("oracle:C06")
 	o.Count("oracle:C01")
 	// C06
@@ -523,6 +564,16 @@ func (e *routeEngine) req(r reqSpec, o *Out) string {
 	}
 	if len(deliveries) > 1 {
 		o.Fail("C06", "amplified", detail)
+	}
+	if len(goneDialed) > 1 || (len(goneDialed) == 1 && res.code == "ok") {
+		// the request was given to a second upstream after one answered ErrGone
+		o.Fail("C06", "reselected-after-gone", detail)
+	}
+	for _, g := range goneDialed {
+		// RemoveConn(u): the manager's count equals the reference registry without u
+		if e.nodes[g.node].mgr.Endpoints()[g.ep] != len(e.registered(g.node, g.ep)) {
+			o.Fail("C01", "gone-not-removed", detail)
+		}
 	}
 	if viaSelf {
 		o.Fail("C06", "self-id", detail)
@@ -550,11 +601,20 @@ func (e *routeEngine) req(r reqSpec, o *Out) string {
 			stEp = Unhx(p[2])
 		}
 	}
-	if want != "" && len(e.registered(r.entry, want)) > 0 {
-		if res.code != "ok" || stNode != r.entry || total != 1 {
+	if want != "" && len(registeredBefore(r.entry, want)) > 0 {
+		// served there - or, if the upstream it selected there answered ErrGone, 502 from there
+		servedLocal := res.code == "ok" && stNode == r.entry
+		goneLocal := res.code == "502" && goneAt(r.entry, want)
+		if !(servedLocal || goneLocal) || total != 1 || len(via) != 0 {
 			o.Fail("C06", "local-first", detail)
 		}
 		o.Count("c06:local")
+	}
+	if len(goneDialed) > 0 {
+		o.Count("c06:gone-dialed")
+		if len(via) > 0 {
+			o.Count("c06:gone-dialed-after-hop")
+		}
 	}
 	// C01
 	if res.code == "ok" {
@@ -565,7 +625,7 @@ func (e *routeEngine) req(r reqSpec, o *Out) string {
 			}
 			o.Fail("C01", clause, detail+" addressed="+Hx(want))
 		}
-		if !has1(e.registered(stNode, stEp), stUID) {
+		if !has1(registeredBefore(stNode, stEp), stUID) {
 			o.Fail("C01", "not-registered", detail)
 		}
 		o.Count("c01:served")
@@ -583,12 +643,12 @@ func (e *routeEngine) req(r reqSpec, o *Out) string {
 	}
 	if wasSettled && want != "" && !(r.hasFwd && r.fwdHdr == "true") {
 		any := false
-		for _, k := range e.order {
+		for _, k := range regBefore {
 			if k.ep == want {
 				any = true
 			}
 		}
-		if any && res.code != "ok" {
+		if any && res.code != "ok" && len(goneDialed) == 0 {
 			o.Fail("C01", "settled-not-served", detail)
 		}
 		if !any && res.code != "502" {
@@ -698,10 +758,21 @@ func (e *routeEngine) Step(ws []string, o *Out) string {
 	case "rmlep":
 		e.nodes[Atoi(ws[1])].cs.RemoveLocalEndpoint(Unhx(ws[2]))
 		return "ok"
+	case "gone":
+		k := upKey{node: Atoi(ws[1]), uid: Atoi(ws[2]), ep: Unhx(ws[3])}
+		atomic.StoreInt32(&e.up(k).gone, 1)
+		return "ok"
 	case "resync":
 		for _, k := range e.order {
 			e.nodes[k.node].mgr.RemoveConn(e.up(k))
 		}
+		var keep []upKey
+		for _, k := range e.order {
+			if atomic.LoadInt32(&e.up(k).gone) == 0 {
+				keep = append(keep, k)
+			}
+		}
+		e.order = keep
 		for _, k := range e.order {
 			e.nodes[k.node].mgr.AddConn(e.up(k))
 		}
@@ -900,6 +971,55 @@ func (e *routeEngine) Gen(r *rand.Rand, n int, tier string, w *bufio.Writer) {
 			nops = 10 + r.Intn(30)
 		}
 		for k := 0; k < nops; k++ {
+			if r.Intn(7) == 0 {
+				// an upstream whose listener stopped accepting (Dial answers ErrGone) but which is
+				// still registered, on a node B that a request reaches - mostly forwarded by a node A
+				// whose view names B, while B's own view names a further node (or A) for the endpoint
+				ep := Pick(r, eps)
+				B := r.Intn(N)
+				A := (B + 1 + r.Intn(N-1)) % N
+				if r.Intn(4) == 0 {
+					A = B
+				}
+				if len(gn[B].ups[ep]) == 0 {
+					uid++
+					gn[B].ups[ep] = append(gn[B].ups[ep], uid)
+					fmt.Fprintf(w, "up %d %d %s\n", B, uid, Hx(ep))
+				}
+				if !settledCase {
+					if A != B {
+						fmt.Fprintf(w, "view %d %s active a%d %s=1\n", A, Hx(nid(B)), B, Hx(ep))
+					}
+					X := (B + 1 + r.Intn(N-1)) % N
+					fmt.Fprintf(w, "view %d %s active a%d %s=%d\n", B, Hx(nid(X)), X, Hx(ep), 1+r.Intn(2))
+				}
+				fmt.Fprintln(w, "resync")
+				ng := 1
+				if r.Intn(2) == 0 {
+					ng = len(gn[B].ups[ep])
+				}
+				for _, u := range gn[B].ups[ep][:ng] {
+					fmt.Fprintf(w, "gone %d %d %s\n", B, u, Hx(ep))
+				}
+				gn[B].ups[ep] = gn[B].ups[ep][ng:]
+				nreq := 1 + r.Intn(2)
+				for q := 0; q < nreq; q++ {
+					if r.Intn(4) == 0 {
+						reqLine(w, A, "tcp", "piko.example.com", "~", "~", []string{"Upgrade"}, ep)
+					} else if r.Intn(2) == 0 {
+						reqLine(w, A, "http", "localhost:8000", Hx(ep), "~", nil, "")
+					} else {
+						reqLine(w, A, "http", ep+".piko.example.com", "~", "~", nil, "")
+					}
+					if A != B {
+						// which candidate A picked decides whether the gone upstream was dialled and
+						// removed: resync makes the registries equal again on both sides
+						fmt.Fprintln(w, "resync")
+					}
+				}
+				fmt.Fprintln(w, "resync")
+				continue
+			}
 			if x := r.Intn(20); x < 3 && !settledCase {
 				i := r.Intn(N)
 				id := nid(r.Intn(N))
